@@ -48,7 +48,4 @@ pub open spec fn block_spec(b: Seq<u8>, s: int, e: int) -> Seq<(int, int)> {
     }
 }
 
-pub open spec fn ranges_view(v: Seq<Range<usize>>) -> Seq<(int, int)> {
-    Seq::new(v.len(), |i: int| (v[i].start as int, v[i].end as int))
-}
 
